@@ -167,15 +167,15 @@ _CALLERS = {}
 
 def callers_of(cg, f):
     """[(caller, call)] of every resolved call site of f."""
-    if id(cg) not in _CALLERS:
+    if id(cg) not in _CALLERS or _CALLERS[id(cg)][0] is not cg:
         idx = {}
         for g, sites in cg.sites.items():
             for call, ts in sites:
                 for t in ts:
                     idx.setdefault(t, []).append((g, call))
         _CALLERS.clear()
-        _CALLERS[id(cg)] = idx
-    return _CALLERS[id(cg)].get(f, [])
+        _CALLERS[id(cg)] = (cg, idx)       # the call graph object is kept alive with its index: an id can be reused by a later object
+    return _CALLERS[id(cg)][1].get(f, [])
 
 
 def count_origin(name_or_expr, f, decoder_cls, depth=0, cg=None):
